@@ -439,7 +439,7 @@ func suiteDocument(r *Rng, n int, thorough bool, o *Out) {
 			}
 			// resource objects
 			checkOne := func(n *jnode, res jsonapi.Resource) {
-				checkResourceObject(&v, n, res, doc.PrePath, fields[res.GetType().Name], doc.RelData)
+				checkResourceObject(&v, n, res, doc.PrePath, fields[res.GetType().Name], doc.RelData, nil)
 			}
 			if data := tree.get("data"); data != nil {
 				switch {
